@@ -1,10 +1,10 @@
 package an
 
 import (
-	"golang.org/x/tools/go/ssa"
-	"go/types"
-	"go/token"
 	"fmt"
+	"go/token"
+	"go/types"
+	"golang.org/x/tools/go/ssa"
 	"sort"
 	"strings"
 )
@@ -25,7 +25,9 @@ func lockList(m map[string]bool) string {
 }
 
 func runC11(p *Prog, r *Report) {
-	publishOrder(p, r, "C11.11/publish-order", func(rel string) bool { return strings.HasPrefix(rel, "protocol/") || strings.HasPrefix(rel, "transport") || rel == "internal/core" })
+	publishOrder(p, r, "C11.11/publish-order", func(rel string) bool {
+		return strings.HasPrefix(rel, "protocol/") || strings.HasPrefix(rel, "transport") || rel == "internal/core"
+	})
 	r.Floor("C11.11/publish-order", "publish_closes.C11.11/publish-order", 5)
 	r.Describe("C11.1/E3", "every post-publication access of a lock-disciplined field holds its inferred guard")
 	e3 := p.E3()
@@ -102,7 +104,6 @@ func runC11(p *Prog, r *Report) {
 	r.Describe("C11.3/E1", "no lock is acquired while already held (directly or through a callee)")
 	e1Obligations(p, r, "C11.3/E1", map[string]bool{"double-lock": true, "callee-relock": true})
 }
-
 
 // mapAliasUses: in is a load of a map-typed field; the instructions that iterate, index or
 // update the loaded map value (through locals and merges).
